@@ -3587,21 +3587,25 @@ func (m *machine) lowerVbitselect(instr *ssa.Instruction) {
 	creg := m.getOperand_Reg(m.c.ValueDefinition(c))
 	rd := m.c.VRegOf(instr.Return())
 
-	tmpC := m.copyToTmp(creg.reg())
-	tmpX := m.copyToTmp(rm.reg())
+	// A temporary that is modified in place must be consumed by the very next instruction: the register
+	// allocator does not treat the modification as a definition, so if the reload of another operand
+	// evicted it in between, it would come back with the value of its original definition.
 
-	// And between c, x (overwrites x).
+	// Andn between y, c (overwrites the copy of c), then give the result a definition of its own.
+	tmpC := m.copyToTmp(creg.reg())
+	pandn := m.allocateInstr()
+	pandn.asXmmRmR(sseOpcodePandn, rn, tmpC)
+	m.insert(pandn)
+	notCAndY := m.copyToTmp(tmpC)
+
+	// And between c, x (overwrites the copy of x), immediately followed by the Or.
+	tmpX := m.copyToTmp(rm.reg())
 	pand := m.allocateInstr()
 	pand.asXmmRmR(sseOpcodePand, creg, tmpX)
 	m.insert(pand)
 
-	// Andn between y, c (overwrites c).
-	pandn := m.allocateInstr()
-	pandn.asXmmRmR(sseOpcodePandn, rn, tmpC)
-	m.insert(pandn)
-
 	por := m.allocateInstr()
-	por.asXmmRmR(sseOpcodePor, newOperandReg(tmpC), tmpX)
+	por.asXmmRmR(sseOpcodePor, newOperandReg(notCAndY), tmpX)
 	m.insert(por)
 
 	m.copyTo(tmpX, rd)
